@@ -13,7 +13,9 @@ import (
 	"fmt"
 	"io"
 	"log"
+	"os"
 	"runtime"
+	"strings"
 	"sync"
 
 	"verif.local/harness/ev"
@@ -96,7 +98,20 @@ func run(r *ev.Run) {
 	close(ch)
 	wg.Wait()
 
-	requireAll(r)
+	r.Extra("tier_sizes", map[string]int{"file_cases": countPrefix(jobs, "w"), "tree_cases": countPrefix(jobs, "t")})
+	if os.Getenv("VERIF_ONLY") == "" {
+		requireAll(r)
+	}
+}
+
+func countPrefix(js []job, p string) int {
+	n := 0
+	for _, j := range js {
+		if strings.HasPrefix(j.id, p) {
+			n++
+		}
+	}
+	return n
 }
 
 func sortJobs(js []job) {
